@@ -377,6 +377,7 @@ def run(ctx):
         'post-commit operation calling check_and_complete', ctx.loc(rc))
     from mstatic.rules import shared
     shared.affected_tasks_cover_completed(ctx, r5)
+    shared.refresh_covers_unfinished(ctx, r5)
     shared.affected_walk_stops(ctx, r5)
     shared.routing_recorded_before_pause(ctx, r5)
     ca = prog.func(TH + '._check_affected_tasks')
